@@ -14,12 +14,12 @@ TECHNIQUE = {
     "C04": LEA + "newline/add_line pairing, look-ahead evidence for counts, dispatcher/scanner commutation probe",
     "C05": "static analysis: sibling-implementation agreement - symbolic evaluation of accessor and bulk-view HIR on "
            "order-type witnesses; units analysis",
-    "C06": LEA + "per-emission channel/type, spelling, non-emptiness, delimiter and orphan-consumption rules",
+    "C06": LEA + "per-emission channel/type, spelling, non-emptiness, delimiter, orphan-consumption and keyword-table-flow rules",
     "C07": LEA + "literal-section anchoring rules and commutation probe; structural hex-sink and rollback rules",
     "C09": LEA + "checkpoint typestate incl. live-checkpoint region exploration, speculation purity, error/recovery "
            "pairing and ordering",
     "C10": LEA + "retype guards, expectation tables per keyword, finalize-once, token-group rules",
-    "C11": LEA + "pending-statement flag, datalines look-behind, delimiter shape, spelling rules on open-code paths",
+    "C11": LEA + "pending-statement flag, datalines look-behind, delimiter shape, spelling and keyword-table-flow rules on open-code paths",
     "C12": LEA + "mode push-order rule (whitespace-blind modes vs exit guarantees), expectation tables, checkpoint "
            "residue; structural counter pairing",
     "C13": LEA + "nesting write-back, depth-zero guard and dispatcher/scanner commutation probe for %-quoting",
